@@ -31,11 +31,13 @@ struct Case {
     bg: Option<[u8; 3]>,
     /// the pixels are stored column by column and the image is the transposed view of that buffer
     transposed: bool,
+    /// the crop is taken after the uncropped image has been used (hashed and drawn on a scratch handler)
+    late: bool,
 }
 
 impl Case {
     fn new(sub: &'static str, h: usize, w: usize, px: Vec<Px>) -> Self {
-        Case { sub, h, w, px, crop: None, bg: None, transposed: false }
+        Case { sub, h, w, px, crop: None, bg: None, transposed: false, late: false }
     }
 
     /// what a viewer sees: (height, width, row-major pixels)
@@ -74,7 +76,14 @@ impl Case {
         };
         match self.crop {
             None => img,
-            Some((r0, r1, c0, c1)) => img.crop(r0..r1, c0..c1),
+            Some((r0, r1, c0, c1)) => {
+                if self.late {
+                    let _ = surf_n_term::Surface::hash(&img);
+                    let mut scratch = SixelImageHandler::new(None);
+                    let _ = scratch.draw(&mut Vec::new(), &img, Position::new(0, 0));
+                }
+                img.crop(r0..r1, c0..c1)
+            }
         }
     }
 
@@ -85,6 +94,7 @@ impl Case {
             "crop_rows_cols": self.crop.map(|(a, b, c, d)| json!([a, b, c, d])),
             "bg": self.bg.map(|b| json!(b)),
             "transposed": self.transposed,
+            "late_crop": self.late,
         })
     }
 
@@ -107,7 +117,7 @@ impl Case {
             Some(a) if a.len() == 3 => Some([a[0].as_u64().unwrap_or(0) as u8, a[1].as_u64().unwrap_or(0) as u8, a[2].as_u64().unwrap_or(0) as u8]),
             _ => None,
         };
-        Ok(Case { sub: "replay", h, w, px, crop, bg, transposed: v["transposed"].as_bool().unwrap_or(false) })
+        Ok(Case { sub: "replay", h, w, px, crop, bg, transposed: v["transposed"].as_bool().unwrap_or(false), late: v["late_crop"].as_bool().unwrap_or(false) })
     }
 }
 
@@ -628,6 +638,23 @@ fn shared_family(name: &str) -> Vec<Case> {
             for c0 in 0..6 {
                 let mut c = Case::new("shared", 6, 12, px.clone());
                 c.crop = Some((0, 6, c0, c0 + 6));
+                v.push(c);
+            }
+            // the same pixel sequence, same height and width, but STORED column by column: another picture
+            // over an identical buffer (what a viewer sees at (r, c) is item c*h + r of the sequence)
+            for (h, w) in [(6usize, 12usize), (12, 6), (8, 9), (9, 8)] {
+                let seen: Vec<Px> = (0..h * w).map(|k| px[(k % w) * h + k / w]).collect();
+                let mut c = Case::new("shared", h, w, seen);
+                c.transposed = true;
+                v.push(c);
+            }
+            // a crop taken from an image that has been drawn already (whatever an image object memoises on
+            // first use must not be inherited by what is derived from it)
+            for (tr, r0, c0) in [(false, 3usize, 1usize), (true, 2, 0), (false, 6, 0)] {
+                let mut c = Case::new("shared", 12, 6, px.clone());
+                c.crop = Some((r0, r0 + 6, c0, c0 + 4));
+                c.late = true;
+                c.transposed = tr;
                 v.push(c);
             }
             v
